@@ -126,6 +126,7 @@ def cell_card(c, deck):
     else:
         parts.append('%d %s' % (c['mat'], c['rhotxt'] or '-1.0'))
     parts.append(render_geom(c['geom']))
+    parts += list(c.get('kw_front', []))       # cell parameters the conversion has no use for (VOL, NONU, TMP, ...)
     paramcards = bool(deck.get('paramcards'))     # U and FILL given on data cards (one entry per cell) instead
     if c['u'] and not paramcards:
         # U=-n: MCNP's "not truncated by the container" hint; the cell is in universe n all the same
@@ -158,6 +159,7 @@ def cell_card(c, deck):
         parts.append('imp:n=%d' % c['imp'])
     elif c.get('impsrc') == 'cellmulti':
         parts.append(c['imptxt'])
+    parts += list(c.get('kw_back', []))
     return wrap_card(' '.join(parts))
 
 
@@ -339,6 +341,21 @@ def decorate_materials(deck, rng, classes_for=None, spellings='all'):
             values.append(val)
         c['rho'] = values.index(val) + 1
     deck['rhovalues'] = values
+    return deck
+
+
+IRRELEVANT_KW = ['vol=2.5', 'pwt=1', 'ext:n=0', 'fcl:n=0', 'nonu=1', 'nonu=0', 'tmp=2.53e-8', 'elpt:n=1', 'unc:n=1',
+                 'dxc1:n=1', 'wwn1:n=0.5', 'cosy=1', 'bflcl=0', 'pd1=1']
+
+
+def irrelevant_keywords(deck, rng):
+    """Give every explicit cell card one or two MCNP cell parameters that have no bearing on the geometry or the
+    materials, before and/or after the parameters the converter reads: the conversion must not change."""
+    for c in deck['cells']:
+        if c.get('like'):
+            continue
+        c['kw_front'] = [rng.choice(IRRELEVANT_KW)] if rng.random() < 0.6 else []
+        c['kw_back'] = [rng.choice(IRRELEVANT_KW)] if rng.random() < 0.6 else []
     return deck
 
 
